@@ -217,6 +217,13 @@ package stack
 //@   modifies nothing
 //@   gvar tokN int
 //@   gvar tokB [int]int
+//@   gvar d0 int
+//@   gvar nOpen int
+//@   update after-call trimCurlyBrackets#1: d0 := depth; nOpen := ret0
+//@   assert after-store Arg.IsAggregate#1: [openingBracketAddsAChildAtTheCurrentLevel C01] cur == stack[depth] && len(cur.Values) >= 1 && next == &cur.Values[len(cur.Values)-1] && next.IsAggregate
+//@   assert after-store Args.Elided#1: [ellipsisMarksTheCurrentLevel C01] cur == stack[depth] && cur.Elided
+//@   assert after-store Args.Values#2: [tooLargeLeafGoesToTheCurrentLevel C01] cur == stack[depth] && depth == d0 + nOpen
+//@   assert after-store Args.Values#3: [leafGoesToTheCurrentLevel C01] cur == stack[depth] && depth == d0 + nOpen
 //@   gvar numTok string
 //@   update after-call trimCurlyBrackets#1: tokN := len(ret1); tokB := lambda k :: ret1[k]
 //@   update after-call unsafeString#1: numTok := ret0
@@ -227,8 +234,10 @@ package stack
 //@   assert after-store Args.Values#3: [pointerLikenessDependsOnValueOnly C01] len(cur.Values) >= 1 && (cur.Values[len(cur.Values)-1].IsPtr <==> (pointerFloor < cur.Values[len(cur.Values)-1].Value && cur.Values[len(cur.Values)-1].Value < pointerCeiling)) && cur.Values[len(cur.Values)-1].Name == "" && !cur.Values[len(cur.Values)-1].IsAggregate && !cur.Values[len(cur.Values)-1].IsOffsetTooLarge && (cur.Values[len(cur.Values)-1].IsInaccurate <==> inaccurate)
 //@   loop 0: invariant -1 <= rangeindex && 0 <= depth && depth < 6 && (forall k :: 0 <= k && k <= depth ==> stack[k] != nil && fresh(stack[k]) && live(stack[k]) && (stack[k].Values == nil || fresh(stack[k].Values)))
 //@   loop 1: invariant 0 <= depth && depth < 6 && 0 <= i && (forall k :: 0 <= k && k <= depth ==> stack[k] != nil && fresh(stack[k]) && live(stack[k]) && (stack[k].Values == nil || fresh(stack[k].Values)))
+//@   loop 1: invariant [descendOneLevelPerOpeningBracket C01] depth == d0 + i && nOpen == opened && i <= opened
 //@   loop 1: decreases opened - i
 //@   loop 2: invariant 0 <= depth && depth < 6 && 0 <= i && (forall k :: 0 <= k && k <= depth ==> stack[k] != nil && fresh(stack[k]) && live(stack[k]) && (stack[k].Values == nil || fresh(stack[k].Values)))
+//@   loop 2: invariant [ascendOneLevelPerClosingBracket C01] depth == d0 + nOpen - i
 //@   loop 2: decreases closed - i
 
 // DefaultOpts reads the environment (GOROOT, GOPATH, home directory): outside
